@@ -1141,23 +1141,31 @@ Proof.
   unfold in_domain_C01. intros H. repeat (apply andb_true_iff in H; destruct H as [H ?]). assumption.
 Qed.
 
+(* The judge splits the start line at ASCII blanks ([fields]); the proxy uses strings.Fields
+   ([fields_go]), which also splits at the UTF-8 encodings of the Unicode white-space runes and
+   re-joins the words with single ASCII blanks.  The two readings must agree on the line
+   (hypothesis [fields_go l0 = fields l0]; it holds whenever [no_usp l0 = true], in particular
+   for an ASCII line: BytesLemmas.fields_go_no_usp / fields_go_ascii).  Without it the
+   statement is false: see [C01_fields_hypothesis_necessary] below. *)
 Lemma start_line_request_roundtrip l0 meth u ver a :
-  single_blanks l0 = true -> fields l0 = [meth; u; ver] -> has_prefix (s2b "SIP/") l0 = false ->
+  single_blanks l0 = true -> fields l0 = [meth; u; ver] -> fields_go l0 = fields l0 ->
+  has_prefix (s2b "SIP/") l0 = false ->
   wf_addr a = true -> u = rp_addr a ->
   exists st, parse_start_line l0 = Ok st /\ start_line_print st = l0.
 Proof.
-  intros Sb F Np W ->. unfold parse_start_line, parse_request_line.
-  rewrite Np, F, (parse_addr_spec_rp a W). cbn [rbind]. eexists. split; [reflexivity|].
+  intros Sb F G Np W ->. unfold parse_start_line, parse_request_line.
+  rewrite Np, G, F, (parse_addr_spec_rp a W). cbn [rbind]. eexists. split; [reflexivity|].
   cbn [start_line_print]. rewrite (addr_spec_print_embed a W).
   unfold single_blanks in Sb. apply beq_eq in Sb. rewrite F in Sb. rewrite Sb. reflexivity.
 Qed.
 
 Lemma start_line_response_roundtrip l0 ver c r1 rs code :
-  single_blanks l0 = true -> fields l0 = ver :: c :: r1 :: rs -> has_prefix (s2b "SIP/") l0 = true ->
+  single_blanks l0 = true -> fields l0 = ver :: c :: r1 :: rs -> fields_go l0 = fields l0 ->
+  has_prefix (s2b "SIP/") l0 = true ->
   atoi c = Some code -> itoa code = c ->
   exists st, parse_start_line l0 = Ok st /\ start_line_print st = l0.
 Proof.
-  intros Sb F Pp A I. unfold parse_start_line, parse_status_line. rewrite Pp, F, A.
+  intros Sb F G Pp A I. unfold parse_start_line, parse_status_line. rewrite Pp, G, F, A.
   eexists. split; [reflexivity|]. cbn [start_line_print]. rewrite I.
   unfold single_blanks in Sb. apply beq_eq in Sb. rewrite F in Sb. rewrite Sb.
   rewrite (join_byte_cons2 " "%char ver (c :: r1 :: rs)) by discriminate.
@@ -1169,12 +1177,13 @@ Qed.
 Theorem C01_judge_bridge_request b jin m rest m' meth u ver a :
   j_read b = Some jin -> in_domain_C01 jin = true -> parse_message b = Ok (m, rest) ->
   j_is_response jin = false -> fields (jm_start jin) = [meth; u; ver] ->
+  fields_go (jm_start jin) = fields (jm_start jin) ->
   wf_addr a = true -> u = rp_addr a ->
   view m' = view m -> line_safe m' ->
   exists jo, j_read (write_message m') = Some jo /\ judge_C01_pair jin jo = 0%nat.
 Proof.
-  intros J D P Nr F W U V Ls. destruct (read_agree _ _ _ _ J P) as (_ & _ & _ & _ & PS).
-  destruct (start_line_request_roundtrip _ _ _ _ _ (in_domain_single_blanks _ D) F Nr W U) as (st & E1 & E2).
+  intros J D P Nr F G W U V Ls. destruct (read_agree _ _ _ _ J P) as (_ & _ & _ & _ & PS).
+  destruct (start_line_request_roundtrip _ _ _ _ _ (in_domain_single_blanks _ D) F G Nr W U) as (st & E1 & E2).
   rewrite PS in E1. inversion E1; subst st.
   exact (C01_judge_bridge_partial _ _ _ _ _ J P E2 V Ls).
 Qed.
@@ -1183,12 +1192,13 @@ Qed.
 Theorem C01_judge_bridge_response b jin m rest m' ver c r1 rs code :
   j_read b = Some jin -> in_domain_C01 jin = true -> parse_message b = Ok (m, rest) ->
   j_is_response jin = true -> fields (jm_start jin) = ver :: c :: r1 :: rs ->
+  fields_go (jm_start jin) = fields (jm_start jin) ->
   atoi c = Some code -> itoa code = c ->
   view m' = view m -> line_safe m' ->
   exists jo, j_read (write_message m') = Some jo /\ judge_C01_pair jin jo = 0%nat.
 Proof.
-  intros J D P Ir F A I V Ls. destruct (read_agree _ _ _ _ J P) as (_ & _ & _ & _ & PS).
-  destruct (start_line_response_roundtrip _ _ _ _ _ _ (in_domain_single_blanks _ D) F Ir A I) as (st & E1 & E2).
+  intros J D P Ir F G A I V Ls. destruct (read_agree _ _ _ _ J P) as (_ & _ & _ & _ & PS).
+  destruct (start_line_response_roundtrip _ _ _ _ _ _ (in_domain_single_blanks _ D) F G Ir A I) as (st & E1 & E2).
   rewrite PS in E1. inversion E1; subst st.
   exact (C01_judge_bridge_partial _ _ _ _ _ J P E2 V Ls).
 Qed.
@@ -1202,7 +1212,25 @@ Example ex_bridge_hypotheses :
   option_map (fun j => fields (jm_start j)) (j_read ex_req_backend)
     = Some [s2b "INVITE"; rp_addr ex_ruri; s2b "SIP/2.0"] /\
   option_map j_is_response (j_read ex_req_backend) = Some false /\
+  option_map (fun j => no_usp (jm_start j)) (j_read ex_req_backend) = Some true /\
+  option_map (fun j => fields_go (jm_start j)) (j_read ex_req_backend)
+    = option_map (fun j => fields (jm_start j)) (j_read ex_req_backend) /\
   option_map in_domain_C01 (j_read ex_req_backend) = Some true.
+Proof. repeat (split; [vm_compute; reflexivity|]). vm_compute; reflexivity. Qed.
+
+(* the hypothesis [fields_go (jm_start jin) = fields (jm_start jin)] is necessary: a reason phrase
+   with U+00A0 (C2 A0) inside is one word for the judge and two words for strings.Fields; the
+   proxy re-joins the words with an ASCII blank, the start line changes, the judge answers 2 *)
+Definition ex_nbsp_input : bytes :=
+  s2b "SIP/2.0 200 OK" ++ [ascii_of_nat 194; ascii_of_nat 160] ++ s2b "then" ++ crlf ++
+  s2b "Content-Length: 0" ++ crlf ++ crlf.
+Example C01_fields_hypothesis_necessary :
+  option_map in_domain_C01 (j_read ex_nbsp_input) = Some true /\
+  option_map (fun j => List.length (fields (jm_start j))) (j_read ex_nbsp_input) = Some 3%nat /\
+  option_map (fun j => List.length (fields_go (jm_start j))) (j_read ex_nbsp_input) = Some 4%nat /\
+  parse_message ex_nbsp_input = Ok (parsed ex_nbsp_input, []) /\
+  start_line_print (m_start (parsed ex_nbsp_input)) = s2b "SIP/2.0 200 OK then" /\
+  judge_bytes ex_nbsp_input (write_message (parsed ex_nbsp_input)) = Some 2%nat.
 Proof. repeat (split; [vm_compute; reflexivity|]). vm_compute; reflexivity. Qed.
 
 Print Assumptions C01_relay_preserves.
